@@ -31,15 +31,15 @@ JOBS["C17"] = [
 ]
 JOBS["C20"] = [
     H("fieldguard", "pure", "^TestC20FieldGuard$", {"shards": 1, "checks": 1, "timeout": 120}),
-    H("group", "pure", "^TestC20Group$", {"shards": 5, "checks": 1200, "timeout": 900}, {"shards": 14, "checks": 30000, "timeout": 3400}),
+    H("group", "pure", "^TestC20Group$", {"shards": 5, "checks": 1200, "timeout": 900}, {"shards": 14, "checks": 15000, "timeout": 3400}),
     H("reject", "pure", "^TestC20Reject$", {"shards": 3, "checks": 1500, "timeout": 900}, {"shards": 8, "checks": 30000, "timeout": 3400}),
     H("beacon", "pure", "^TestC20Beacon$", {"shards": 2, "checks": 20000, "timeout": 900}, {"shards": 6, "checks": 500000, "timeout": 3400}),
-    H("dbstate", "pure", "^TestC20DBState$", {"shards": 4, "checks": 1000, "timeout": 900}, {"shards": 14, "checks": 20000, "timeout": 3400}),
+    H("dbstate", "pure", "^TestC20DBState$", {"shards": 4, "checks": 1000, "timeout": 900}, {"shards": 14, "checks": 10000, "timeout": 3400}),
 ]
 
 JOBS["C18"] = [
     H("exhaustive", "store", "^TestC18Exhaustive$", {"shards": 10, "checks": 1, "timeout": 900, "env": {"VERIF_C18_L": 4}}, {"shards": 10, "checks": 1, "timeout": 3400, "env": {"VERIF_C18_L": 6}}),
-    H("random", "store", "^TestC18Random$", {"shards": 8, "checks": 2500, "timeout": 900}, {"shards": 14, "checks": 120000, "timeout": 3400}),
+    H("random", "store", "^TestC18Random$", {"shards": 8, "checks": 2500, "timeout": 900}, {"shards": 14, "checks": 15000, "timeout": 3400}),
 ]
 
 JOBS["C01"] = [
